@@ -178,8 +178,10 @@ class MetaArg(Unit):
         elif self.arg == "pol_type":
             val, valid = var, z3.BoolVal(var in ("linear", "circular"))
         elif self.arg == "meta":
-            val = {"none": None, "dict": {"a": 1}, "pairs": [("a", 1)], "int": 5, "string": "ab", "list": [1, 2]}[var]
-            valid = z3.BoolVal(var in ("none", "dict", "pairs"))
+            val = {"none": None, "dict": {"a": 1}, "pairs": [("a", 1)], "int": 5, "string": "ab", "list": [1, 2],
+                   # falsy values: invalid ones must still be refused, the (valid) empty dict must stay a dict
+                   "zero": 0, "false": False, "zero-float": 0.0, "empty-dict": {}}[var]
+            valid = z3.BoolVal(var in ("none", "dict", "pairs", "empty-dict"))
         elif self.arg == "start_time":
             tv = _time_vals()[var]
             val = S.time(v) if tv == "SYM" else tv
@@ -228,6 +230,8 @@ class MetaArg(Unit):
             checks.append(("stored-value", z3.BoolVal(got != a["val"])))
         elif self.arg == "meta":
             checks.append(("stored-value", z3.BoolVal(not (got is None or isinstance(got, dict)))))
+            if isinstance(a["val"], (dict, list)):
+                checks.append(("stored-value-equals-the-given-mapping", z3.BoolVal(got != dict(a["val"]))))
             checks.append(("meta-is-a-copy", z3.BoolVal(got is a["val"] and got is not None)))
         elif self.arg == "start_time":
             ok = got is None or (getattr(got, "isscalar", False) and isinstance(got, (Time, SymTime)))
@@ -381,8 +385,10 @@ def units(tier):
         us.append(MetaArg(pb.RadioSignal, "freq_align", v, assign=True, nchan=1))
     for v in ("linear", "circular", "Linear", "elliptical"):
         us.append(MetaArg(pb.DualPolarizationSignal, "pol_type", v, assign=(v in ("circular", "Linear"))))
-    for v in ("none", "dict", "pairs", "int", "string", "list"):
-        us.append(MetaArg(pb.Signal, "meta", v, assign=(v in ("dict", "int"))))
+    for v in ("none", "dict", "pairs", "int", "string", "list", "zero", "false", "zero-float", "empty-dict"):
+        us.append(MetaArg(pb.Signal, "meta", v, assign=(v in ("dict", "int", "zero", "empty-dict"))))
+        if v in ("false", "empty-dict"):
+            us.append(MetaArg(pb.RadioSignal, "meta", v))
     for v in _time_vals():
         us.append(MetaArg(pb.IntensitySignal, "start_time", v, assign=(v in ("time", "number", "zero", "empty-string"))))
     for n in C14.OPS:
